@@ -69,7 +69,11 @@ struct Explorer {
     };
     struct Node {
         std::vector<Step> hist;
+        std::size_t depth{0}; // distance from the initial state or from a seed state
     };
+    // optional seed histories (unary actions only): boundary states from which a depth-bounded
+    // exploration starts when closure of the whole space is out of reach
+    std::vector<std::vector<Action>> seeds;
 
     Sys& sys;
     Reporter& r;
@@ -164,13 +168,14 @@ struct Explorer {
         bool added = false;
         auto it    = index.find(k);
         if (it == index.end()) {
-            if (nodes.size() >= lim.max_states || h.size() + 1 > lim.max_depth) {
+            if (nodes.size() >= lim.max_states || nodes[std::size_t(from)].depth + 1 > lim.max_depth) {
                 capped = true;
             } else {
                 Node n;
                 n.hist = h;
                 n.hist.push_back(Step{a, partner});
-                max_depth_seen = std::max(max_depth_seen, n.hist.size());
+                n.depth        = nodes[std::size_t(from)].depth + 1;
+                max_depth_seen = std::max(max_depth_seen, n.depth);
                 int const id   = int(nodes.size());
                 index.emplace(std::move(k), id);
                 nodes.push_back(std::move(n));
@@ -253,6 +258,30 @@ struct Explorer {
             nodes.push_back(Node{});
             r.outcome(hash_str(k0));
             on_new_state(0, *s0);
+        }
+        for (auto const& seed : seeds) {
+            Node n;
+            for (auto const& a : seed) { n.hist.push_back(Step{a, -1}); }
+            std::unique_ptr<State> s;
+            std::string k;
+            Reporter scratch;
+            Cx cx{r, [&] { return cat(sys.name(), ": <seed> ", show_hist(n.hist)); }};
+            Trap t = guarded([&] {
+                s = std::make_unique<State>(0xAA);
+                for (auto const& a : seed) { sys.apply(*s, a, nullptr, cx); }
+                k = sys.key(*s);
+            });
+            if (t != Trap::none) {
+                cx.fail(lim.prop_ub, cat(sys.family(), "::<seed>"), cat("seed-", trap_name(t)), describe_trap(t));
+                (void)s.release();
+                continue;
+            }
+            transitions += seed.size();
+            if (cx.failed || index.count(k) != 0) { continue; }
+            int const id = int(nodes.size());
+            index.emplace(std::move(k), id);
+            nodes.push_back(std::move(n));
+            on_new_state(id, *s);
         }
         std::size_t unary_done = 0;
         std::size_t pairs_done = 0; // all pairs (i,j) with max(i,j) < pairs_done are explored
